@@ -2,6 +2,8 @@
 //! See /verif/DESIGN.md.
 pub mod case;
 pub mod engine;
+pub mod fuzzing;
+pub mod fuzzstage;
 pub mod gen;
 pub mod model;
 pub mod observe;
